@@ -107,6 +107,24 @@ def run(ctx):
                 if not held:
                     run.finding(Finding(R1, fid, "Context::add_output given a key that is not fresh", site=c.site_of(f, b), detail=str(sorted(map(str, p)))))
 
+    # an output built for the caller (build_output, mwixnet) leaves no record: the advanced index is all that
+    # reserves its path
+    BO = c.LW + "api_impl::types::BuiltOutput"
+    nbo = 0
+    for fid, f in sorted(db.fns.items()):
+        if non_production(fid) or f.impl_trait in ("core::clone::Clone", "serde::de::Visitor", "serde::de::Deserialize", "core::default::Default"):
+            continue
+        for b, s_ in vf.struct_literals(f, BO):
+            nbo += 1
+            ko = vf.literal_field(s_, "key_id")
+            prod = vf.producers(f, ko)
+            held = vf.has_call(prod, KEYS + "next_available_key") or vf.has_call(prod, c.WB + "next_child")
+            run.instance(R1, {"fn": pp.short(fid), "obligation": "the key id of a built output is handed out by the index (next_available_key / next_child)", "producers": sorted(map(str, prod))[:4]}, held=held)
+            if not held:
+                run.finding(Finding(R1, fid, "the key of an output built for the caller does not come from next_available_key: the index is not advanced, and since a built output leaves no record the next output of the account is built on the same path", site=c.site_of(f, b)))
+    if nbo == 0:
+        run.error("C15.R1: no BuiltOutput construction site found (anchor missing)")
+
     R2 = "C15.R2"
     run.rule(R2, "next_child: the index is bumped and committed before the path is returned; path uses the pre-increment index", floor=4)
     nc = BACKEND + "next_child"
